@@ -137,7 +137,7 @@ func (v *Verifier) buildHarness(fr *FuncRef, fc *FuncContract, cs caseSpec) *har
 			}
 			hp.kind, hp.n = "slice", n
 			fmt.Fprintf(&decl, "\tvar v_%s []byte\n", p.name)
-			fmt.Fprintf(&assign, "\t\tv_%s = make([]byte, %d, %d+int(u64(vec[%q])%%8))\n", p.name, n, n, "sparecap("+p.name+")")
+			fmt.Fprintf(&assign, "\t\tv_%s = make([]byte, %d, %d+int(u64(vec[%q])%%80))\n", p.name, n, n, "sparecap("+p.name+")")
 			for i := 0; i < n; i++ {
 				fmt.Fprintf(&assign, "\t\tv_%s[%d] = byte(u64(vec[%q]))\n", p.name, i, fmt.Sprintf("%s[%d]", p.name, i))
 				fmt.Fprintf(&dump, "\t\tout[%q] = fmt.Sprint(uint64(v_%s[%d]))\n", fmt.Sprintf("%s[%d]", p.name, i), p.name, i)
@@ -325,7 +325,7 @@ func u64(s string) uint64 {
 
 func mkslice(hx, spare string) []byte {
 	b, _ := hex.DecodeString(hx)
-	s := make([]byte, len(b), len(b)+int(u64(spare)%%8))
+	s := make([]byte, len(b), len(b)+int(u64(spare)%%80))
 	copy(s, b)
 	return s
 }
@@ -701,7 +701,8 @@ func hexDecode(s string) ([]byte, error) {
 }
 
 var boundary64 = []string{"0", "1", "2", "18446744073709551615", "9223372036854775808", "18446744069414583343", "18446744069414583342",
-	"13822214165235122497", "13451932020343611451", "18446744073709551614", "4294968273", "4294967296", "255", "256"}
+	"13822214165235122497", "13451932020343611451", "18446744073709551614", "4294968273", "4294967296", "255", "256",
+	"18446744069414584320", "9223372036854775807", "4294967295", "8589934592", "281474976710656"}
 
 // genVectors: the solver model first (if any), then boundary-biased random vectors.
 func (v *Verifier) genVectors(o *Oblig, keys []string, n int, seed int64) []map[string]string {
@@ -756,7 +757,7 @@ func (v *Verifier) genVectors(o *Oblig, keys []string, n int, seed int64) []map[
 		for _, k := range keys {
 			switch {
 			case strings.HasPrefix(k, "sparecap("):
-				m[k] = fmt.Sprint(rng.Intn(4))
+				m[k] = fmt.Sprint([]int{0, 1, 2, 3, 0, 7, 31, 32, 33, 64}[rng.Intn(10)])
 			case strings.HasPrefix(k, "bytes("):
 				ln := []int{0, 1, 5, 16, 32, 49, 254, 255, 256, 257, 300}[rng.Intn(11)]
 				b := make([]byte, ln)
@@ -878,6 +879,127 @@ func (v *Verifier) genVectors(o *Oblig, keys []string, n int, seed int64) []map[
 				}
 			}
 		}
+		// related operands: a second 4-limb group that equals another one except in the upper halves of some limbs
+		// (or in a single bit), and groups whose limbs are all multiples of 2^32 - what truncating conversions and
+		// partial comparisons get wrong
+		{
+			var g4 []string
+			for g, ks := range groups {
+				if len(ks) == 4 {
+					g4 = append(g4, g)
+				}
+			}
+			sort.Strings(g4)
+			if len(g4) >= 2 && rng.Intn(4) == 0 {
+				a, b := g4[rng.Intn(len(g4))], g4[rng.Intn(len(g4))]
+				if a != b {
+					for i := 0; i < 4; i++ {
+						va, _ := new(big.Int).SetString(m[fmt.Sprintf("%s[%d]", a, i)], 10)
+						if va == nil {
+							va = bi(0)
+						}
+						vb := new(big.Int).Set(va)
+						switch rng.Intn(4) {
+						case 0:
+							vb.Xor(vb, new(big.Int).Lsh(bi(int64(1+rng.Intn(1<<16))), 32+uint(rng.Intn(16))))
+						case 1:
+							vb.Xor(vb, new(big.Int).Lsh(bi(1), uint(rng.Intn(64))))
+						}
+						m[fmt.Sprintf("%s[%d]", b, i)] = vb.String()
+					}
+				}
+			}
+			if len(g4) >= 1 && rng.Intn(6) == 0 {
+				a := g4[rng.Intn(len(g4))]
+				for i := 0; i < 4; i++ {
+					v := new(big.Int).Lsh(bi(int64(rng.Intn(1<<20))), 32)
+					if rng.Intn(3) == 0 {
+						v = bi(0)
+					}
+					m[fmt.Sprintf("%s[%d]", a, i)] = v.String()
+				}
+			}
+		}
+		// byte slices that look like SEC1 encodings: 65- and 33-byte groups and pairs of 32-byte groups are filled with
+		// valid encodings of small multiples of G, with the non-canonical twin x + p of a point with tiny x, with
+		// unusual prefix bytes, or with y replaced by p - y
+		{
+			var g32 []string
+			for g, ks := range groups {
+				if len(ks) == 32 {
+					g32 = append(g32, g)
+				}
+			}
+			sort.Strings(g32)
+			pick := func() (x, y *big.Int) {
+				if rng.Intn(3) == 0 {
+					// a point with tiny x: x^3 + 7 must be a square (p = 3 mod 4)
+					for xx := int64(1); xx < 40; xx++ {
+						x0 := bi(xx + int64(rng.Intn(8)))
+						rhs := new(big.Int).Mod(new(big.Int).Add(new(big.Int).Exp(x0, bi(3), P), bi(7)), P)
+						y0 := new(big.Int).Exp(rhs, new(big.Int).Rsh(new(big.Int).Add(P, bi(1)), 2), P)
+						if new(big.Int).Mod(new(big.Int).Mul(y0, y0), P).Cmp(rhs) == 0 {
+							return x0, y0
+						}
+					}
+				}
+				gx, _ := new(big.Int).SetString("79be667ef9dcbbac55a06295ce870b07029bfcdb2dce28d959f2815b16f81798", 16)
+				gy, _ := new(big.Int).SetString("483ada7726a3c4655da4fbfc0e1108a8fd17b448a68554199c47d08ffb10d4b8", 16)
+				pt, G := gInf(), gPt(gx, gy)
+				k := 1 + rng.Intn(15)
+				for i := 0; i < k; i++ {
+					pt = gAddC(pt, G)
+				}
+				x, y, _ = gCoords(pt)
+				return x, y
+			}
+			put := func(g string, off int, v *big.Int) {
+				b := new(big.Int).Mod(v, pow2(256)).FillBytes(make([]byte, 32))
+				for i := 0; i < 32; i++ {
+					m[fmt.Sprintf("%s[%d]", g, off+i)] = fmt.Sprint(b[i])
+				}
+			}
+			twist := func(x, y *big.Int) (*big.Int, *big.Int) {
+				switch rng.Intn(5) {
+				case 0:
+					if x.BitLen() < 30 {
+						return new(big.Int).Add(x, P), y // non-canonical x
+					}
+				case 1:
+					if y.BitLen() < 30 {
+						return x, new(big.Int).Add(y, P)
+					}
+					return x, new(big.Int).Sub(P, y)
+				}
+				return x, y
+			}
+			for g, ks := range groups {
+				if rng.Intn(2) == 0 {
+					continue
+				}
+				switch len(ks) {
+				case 65:
+					x, y := twist(pick())
+					m[g+"[0]"] = []string{"4", "4", "4", "6", "7", "0"}[rng.Intn(6)]
+					put(g, 1, x)
+					put(g, 33, y)
+				case 33:
+					x, y := pick()
+					x2, _ := twist(x, y)
+					pre := 2 + int(y.Bit(0))
+					if rng.Intn(3) == 0 {
+						pre = []int{2, 3, 6, 7, 0x82, 0x12, 4, 0}[rng.Intn(8)]
+					}
+					m[g+"[0]"] = fmt.Sprint(pre)
+					put(g, 1, x2)
+				}
+			}
+			if len(g32) == 2 && rng.Intn(2) == 0 {
+				x, y := twist(pick())
+				put(g32[0], 0, x)
+				put(g32[1], 0, y)
+			}
+		}
 		// objects that look like projective points (x.E, y.E, z.E limb groups): mostly valid curve points in
 		// assorted representations, so that preconditions of the group-level contracts are met
 		for g := range groups {
@@ -928,13 +1050,28 @@ func (v *Verifier) genVectors(o *Oblig, keys []string, n int, seed int64) []map[
 			}
 			x, y, inf := gCoords(pt)
 			var z *big.Int
-			switch rng.Intn(5) {
+			switch rng.Intn(6) {
 			case 0:
 				z = bi(1)
 			case 1:
 				z = modInverse(bigR, P) // Montgomery limbs {1,0,0,0}
 			case 2:
 				z = pow2(64 * (1 + rng.Intn(3)))
+			case 3:
+				// Montgomery limbs that are all multiples of 2^32 (some of them zero)
+				ml := new(big.Int)
+				for i := 0; i < 4; i++ {
+					if rng.Intn(2) == 0 {
+						ml.Add(ml, new(big.Int).Lsh(bi(int64(1+rng.Intn(1<<20))), uint(64*i+32)))
+					}
+				}
+				if ml.Sign() == 0 {
+					ml = pow2(32)
+				}
+				z = new(big.Int).Mod(new(big.Int).Mul(new(big.Int).Mod(ml, P), modInverse(bigR, P)), P)
+				if z.Sign() == 0 {
+					z = bi(1)
+				}
 			default:
 				z = new(big.Int).Rand(rng, P)
 				if z.Sign() == 0 {
